@@ -22,7 +22,11 @@ def rule_N1(ctx, rid='N1'):
     cfg = cfg_of(f)
     from ..exprs import aug_nodes
     incs = [n for n in aug_nodes(cfg) if dotted(n.ast.target) == 'self.n_like']
-    ctx.require(incs, 'evaluate_likelihood no longer increments n_like')
+    if not incs:
+        ctx.ob(rid, 'Sampler.evaluate_likelihood:increment-once', False, f.where(),
+               'evaluate_likelihood evaluates the likelihood without incrementing n_like: the '
+               'reported number of calls and the budget test fall behind')
+        return
     ids = {n.id for n in incs}
     once = cfg.must_pass(cfg.entry.id, cfg.exit.id, ids) and \
         not any(cfg.can_reach(a, b) for a in ids for b in ids)
